@@ -16,4 +16,4 @@ For each change i = 1..{n} write to /tmp/seed_{low}_out/m<i>/:
  - patch.diff : `git diff` of the change against the worktree's HEAD (reset the worktree with `git checkout -- .` between changes so each diff applies to the clean tree on its own);
  - demo_test.go : a Go test file (package comet, droppable into the repository root as zz_demo_test.go) with ONE test that FAILS with the change applied and PASSES on the clean tree, demonstrating the property violation through the public API;
  - meta.json : {{"property":"{pid}","summary":"…what the change does…","needs":"…what specific input / sequence / configuration it needs in order to manifest…","files":[…]}}.
-Verify each yourself: with the patch applied, (a) `go build ./...` and `go build -tags verif ./...` ok, (b) the existing suite passes (without your demo test; the two flaky tests excepted), (c) the demo test fails; on the clean tree the demo test passes. Leave the worktree clean at the end. Final answer: {n} lines, one per change.""")
+Verify each yourself: with the patch applied, (a) `go build ./...` and `go build -tags verif ./...` ok, (b) the existing suite passes (without your demo test; the two flaky tests excepted), (c) the demo test fails; on the clean tree the demo test passes. Never use `git stash` (the stash is shared with other worktrees of the same repository that other people are using right now): keep your changes as diff files and use `git apply` / `git checkout -- .`. Leave the worktree clean at the end. Final answer: {n} lines, one per change.""")
